@@ -300,6 +300,10 @@ fn vp_native_response_body_end_to_end_body() {
             // valid UTF-8 rendering of it
             let t = open().text_utf8().unwrap_or_else(|e| panic!("text_utf8() of a {}-byte {} body: {}", n, name, e)); cases += 1;
             assert!(t == String::from_utf8_lossy(&payload), "text_utf8(): {} chars from a {}-byte {} body, expected the lossy decoding of the payload ({} chars)", t.chars().count(), n, name, String::from_utf8_lossy(&payload).chars().count());
+            let mut v = Vec::new(); let n1 = open().read_to_end(&mut v).unwrap_or_else(|e| panic!("read_to_end() of a {}-byte {} body: {}", n, name, e)); cases += 1;
+            assert!(v == payload && n1 == n, "read_to_end(): {} of {} bytes, {} body", v.len(), n, name);
+            let mut v = Vec::new(); open().split().2.read_to_end(&mut v).unwrap(); cases += 1;
+            assert!(v == payload, "ResponseReader read_to_end(): {} of {} bytes, {} body", v.len(), n, name);
             let (sp, ss) = open().split().2.text_utf8().map(|t| (t.len(), t == String::from_utf8_lossy(&payload))).unwrap_or((0, false)); cases += 1;
             assert!(ss, "ResponseReader::text_utf8() after split(): {} bytes of text from a {}-byte {} body", sp, n, name);
             for sched in schedules {
